@@ -21,7 +21,7 @@ def reference(mode):
 
 def _reference(mode):
     from props import models as M
-    if mode == "export":
+    if mode in ("export", "export8", "export_over"):
         import importlib.util
         spec = importlib.util.spec_from_file_location("w", os.path.join(os.path.dirname(__file__), "pt_writer.py"))
         src = open(spec.origin).read()
@@ -29,7 +29,7 @@ def _reference(mode):
         start = src.index("def build_export_pt")
         end = src.index('if mode == "export"')
         exec("import numpy as np\n" + src[start:end], ns)
-        pt = ns["build_export_pt"]()
+        pt = ns["build_export_pt"](8 if mode == "export8" else 4)
     else:
         bath = oq.Bath(0.5 * M.SX, M.ohmic(alpha=0.3, temperature=0.3))
         pt = oq.pt_tempo_compute(bath, 0.0, 0.9, oq.TempoParameters(dt=0.2, epsrel=1e-7), progress_type="silent")
@@ -61,7 +61,7 @@ def examine(mode, fname):
             info["caps"] = ncaps
             complete = (n == len(ref) and ncaps == len(ref) + 1)
             if complete:
-                if mode == "export":
+                if mode.startswith("export"):
                     for k in range(n):
                         if not np.array_equal(pt.get_mpo_tensor(k), ref.get_mpo_tensor(k)):
                             complete = False
